@@ -43,6 +43,11 @@ def strip(n):
     return n
 
 
+def is_assert(n):
+    n = strip(n)
+    return n.get("kind") == "ConditionalOperator" and any(x.get("kind") == "DeclRefExpr" and x.get("referencedDecl", {}).get("name") == "__assert_fail" for x in A.walk(n))
+
+
 def is_int(n):
     return A.ty(n) in INT_TYPES
 
@@ -181,7 +186,6 @@ class Gen:
     def __init__(self, cx, two):
         self.cx = cx
         self.two = two
-        self.depth = 0
 
     def upd(self, s, which, newexpr):
         n = self.cx.fresh()
@@ -344,8 +348,8 @@ class Gen:
                 raise U("declaration " + str(d.get("kind")))
             init = d.get("inner", [None])[-1] if d.get("inner") else None
             if A.ty(d) in INT_TYPES or A.ty(d) == "bool":
-                if init is None:   # assigned later (SizeType newCapa;): carried in the state tuple from here on
-                    return "let %s := 0 in " % d["name"], S(s.st, s.ot, s.ef, s.extras + (d["name"],))
+                if init is None:   # assigned later in every branch that uses it (SizeType newCapa;)
+                    return "", s
                 r = strip(init)
                 if r["kind"] == "CallExpr" and strip(r["inner"][0]).get("referencedDecl", {}).get("name") == "SafeNextCapacity":
                     a = [ex(x, s, self.cx) for x in r["inner"][1:]]
@@ -361,62 +365,28 @@ class Gen:
         raise U("statement kind " + k)
 
     def block(self, stmts, s):
+        """Continuation-passing: the statements after an if are translated once per branch, so that early returns and
+        locals assigned in both branches need no merging (the functions concerned are a few lines long)."""
         if not stmts:
-            return "Some " + s.tup(self.two, final=self.depth == 0)
+            return "Some " + s.tup(self.two, final=True)
         h, rest = stmts[0], stmts[1:]
         k = h["kind"]
         if k == "CompoundStmt":
             return self.block((h.get("inner") or []) + rest, s)
         if k == "ReturnStmt":
-            if h.get("inner"):
-                raise U("return with a value")
-            if self.depth:
-                raise U("return inside a branch that is merged")
+            if h.get("inner") and (is_int(h["inner"][0]) or A.ty(h["inner"][0]) == "bool"):
+                raise U("return of an integer value")
+            # a returned reference / iterator is not part of the bookkeeping
             return "Some " + s.tup(self.two, final=True)
+        if is_assert(h):
+            return self.block(rest, s)
         if k == "IfStmt":
             c = ex(h["inner"][0], s, self.cx)
             thenb = h["inner"][1]
             elseb = h["inner"][2] if len(h["inner"]) > 2 else None
-            if not rest:
-                return "(if %s then %s else %s)" % (c, self.block([thenb], s), self.block([elseb] if elseb else [], s))
-            n = self.cx.fresh()
-            s2 = S("st%d" % n, "ot%d" % n if self.two else s.ot, "ef%d" % n, s.extras)
-            self.depth += 1
-            # locals declared inside a branch do not survive it: branches return the extras known here
-            tb = self.branch([thenb], s)
-            eb = self.branch([elseb] if elseb else [], s)
-            self.depth -= 1
-            return "match (if %s then %s else %s) with None => None | Some %s => %s end" % (c, tb, eb, s2.tup(self.two), self.block(rest, s2))
+            return "(if %s then %s else %s)" % (c, self.block([thenb] + rest, s), self.block(([elseb] if elseb else []) + rest, s))
         pre, s2 = self.stmt(h, s)
         return self.wrap(pre, self.block(rest, s2))
-
-    def branch(self, stmts, s):
-        """A branch of an if that is followed by more statements: returns the state tuple with the extras of the outer scope."""
-        outer = s.extras
-
-        def go(stmts, s):
-            if not stmts:
-                return "Some " + S(s.st, s.ot, s.ef, outer).tup(self.two)
-            h, rest = stmts[0], stmts[1:]
-            k = h["kind"]
-            if k == "CompoundStmt":
-                return go((h.get("inner") or []) + rest, s)
-            if k == "ReturnStmt":
-                raise U("return inside a branch that is merged")
-            if k == "IfStmt":
-                c = ex(h["inner"][0], s, self.cx)
-                thenb = h["inner"][1]
-                elseb = h["inner"][2] if len(h["inner"]) > 2 else None
-                if not rest:
-                    return "(if %s then %s else %s)" % (c, go([thenb], s), go([elseb] if elseb else [], s))
-                n = self.cx.fresh()
-                s2 = S("st%d" % n, "ot%d" % n if self.two else s.ot, "ef%d" % n, s.extras)
-                saved = outer
-                return "match (if %s then %s else %s) with None => None | Some %s => %s end" % (
-                    c, self.branch([thenb], s), self.branch([elseb] if elseb else [], s), s2.tup(self.two), go(rest, s2))
-            pre, s2 = self.stmt(h, s)
-            return self.wrap(pre, go(rest, s2))
-        return go(stmts, s)
 
     def wrap(self, pre, body):
         """Resolve the markers for calls that may fail or return a state."""
